@@ -133,42 +133,54 @@ def param_omitted(fx):
 
 
 def attr_memo_param_omitted(fx):
-    """[(store node, attribute, parameter)] — ``if self._x is not None: return self._x … self._x = compute(arg)``: a result is
-    remembered in ONE slot of the object although it depends on a parameter of the method: the second call with another
-    argument is served the first call's result."""
+    """[(store node, "<object>.<attribute>", parameter)] — ``if obj._x is not None: return obj._x … obj._x = compute(arg)`` where
+    ``obj`` is self or another parameter: a result is remembered in ONE slot of an object although it depends on a (further)
+    parameter of the function: the second call with another argument is served the first call's result.  Stores through
+    ``object.__setattr__(obj, "_x", v)`` count; a container filled by a callee that also received the parameter counts as
+    depending on it."""
     fn = fx.fn
-    me = fx.selfname
-    if not me:
+    holders = set(fx.params)
+    if not holders:
         return []
     out = []
     fx._reaching()
+
+    def slot(e):
+        if isinstance(e, ast.Attribute) and isinstance(e.value, ast.Name) and e.value.id in holders:
+            return e.value.id, e.attr
+        return None
     returned = set()
     for r in A.returns(fn):
-        a = A.self_attr(r.value, me) if r.value is not None else None
-        if a:
-            returned.add(a)
+        if r.value is None:
+            continue
+        if slot(r.value):
+            returned.add(slot(r.value))
         elif isinstance(r.value, ast.Name):
             for t, v, st in A.assignments(fn, r.value.id):
-                if A.self_attr(v, me):
-                    returned.add(A.self_attr(v, me))
+                if slot(v):
+                    returned.add(slot(v))
     tested = set()
     for i in ast.walk(fn):
         if isinstance(i, ast.If):
             for n in ast.walk(i.test):
-                a = A.self_attr(n, me) if isinstance(n, ast.Attribute) else None
-                if a:
-                    tested.add(a)
+                if slot(n):
+                    tested.add(slot(n))
+    stores = []
     for st in A.body_walk(fn):
-        if not isinstance(st, ast.Assign):
+        if isinstance(st, ast.Assign):
+            for t in st.targets:
+                if slot(t):
+                    stores.append((st, slot(t), st.value))
+        elif isinstance(st, ast.Expr) and isinstance(st.value, ast.Call) and A.unparse(st.value.func) in ("object.__setattr__", "sf", "setattr") and len(st.value.args) == 3 \
+                and isinstance(st.value.args[0], ast.Name) and st.value.args[0].id in holders and isinstance(st.value.args[1], ast.Constant):
+            stores.append((st, (st.value.args[0].id, st.value.args[1].value), st.value.args[2]))
+    for st, sl, val in stores:
+        if sl not in returned or sl not in tested or isinstance(val, ast.Constant):
             continue
-        for t in st.targets:
-            a = A.self_attr(t, me)
-            if not a or a not in returned or a not in tested:
-                continue
-            if isinstance(st.value, ast.Constant):
-                continue
-            vsrc = fx.sources_with_control(st.value, st)
-            for tag in sorted(vsrc):
-                if tag.startswith("param:") and tag[6:] not in (me, "cls"):
-                    out.append((st, a, tag[6:]))
+        vsrc = fx.sources_filled(val, st)
+        from .match import path_conditions
+        fixed = {c.split(" is None")[0] for c in path_conditions(st, fn) if c.endswith(" is None")}  # stored only for that one value
+        for tag in sorted(vsrc):
+            if tag.startswith("param:") and tag[6:] not in (sl[0], "cls", fx.selfname) and tag[6:] not in fixed:
+                out.append((st, f"{sl[0]}.{sl[1]}", tag[6:]))
     return out
